@@ -372,6 +372,9 @@ func init() {
 							dc := &DirCase{Fam: "dir", ID: fmt.Sprintf("sets-%d-%v-%d-%s", f, s, oi, bld), Builder: bld, Fanout: f,
 								Universe: u, Entries: ord, Links: links(ord), Open: "reify", Mode: "sets",
 								Script: fullDirScript(12, allHows)}
+							if oi%2 == 1 || (bld != "sharded" && len(s)%2 == 1) {
+								dc.Open = "lsreify" // every other case through a link system that reifies what it loads
+							}
 							if err := runDirCase(dc, tr); err != nil {
 								return err
 							}
@@ -440,7 +443,7 @@ func init() {
 						continue
 					}
 					dc := &DirCase{Fam: "dir", ID: fmt.Sprintf("boxo-%d-%v", f, s), Builder: "boxo", Fanout: f,
-						Universe: u, Entries: s, Links: links(s), Open: "reify", Mode: "sets",
+						Universe: u, Entries: s, Links: links(s), Open: []string{"reify", "lsreify"}[len(s)%2], Mode: "sets",
 						Script: fullDirScript(10, []string{"string", "native"})}
 					if err := runDirCase(dc, tr); err != nil {
 						return err
@@ -462,7 +465,11 @@ func init() {
 				i++
 				return runDirCase(dc, tr)
 			})
-		case "faults", "preload":
+		case "faults", "preload", "preload-es":
+			emptied := *what == "preload-es" // own-built directories additionally hold an emptied child shard
+			if emptied {
+				*what = "preload"
+			}
 			for fi, f := range parseInts(*fanouts) {
 				for _, style := range stylesFor(fi) {
 					u := mineUniverse(f, style)
@@ -495,8 +502,10 @@ func init() {
 								}
 								if *what == "preload" {
 									dc.Open = "preload"
-									// half of the own-built directories additionally hold an emptied child shard
-									dc.EmptyShard = bld == "sharded" && (m+len(s))%2 == 1
+									dc.EmptyShard = emptied && bld == "sharded"
+									if emptied && bld != "sharded" {
+										continue
+									}
 									if m == 0 {
 										dc.Mode = "seq"
 									}
